@@ -425,7 +425,8 @@ class YAMLSpecification(Specification):
             path = ".".join(str(key) for key in error.path)
             if error.validator == "additionalProperties":
                 unrecognized = (
-                    re.search(r"'.+'", error.message).group(0).strip("'")
+                    re.search(r"\((.+) (?:was|were) unexpected\)",
+                              error.message).group(1).strip("'")
                 )
                 raise jsonschema.ValidationError(
                     "Unrecognized key '{0}' found in {1}.".format(
